@@ -40,6 +40,10 @@ static void user_update(const mjModel* m, mjData* d, uint64_t useed, int k) {
   for (int i = 6; i < 6 * m->nbody; i++) d->xfrc_applied[i] = mjg_range(&r, -0.5, 0.5);
 }
 
+// fresh mjData with a zeroed arena: stage functions allocate arena arrays that later stages fill
+// (efc_vel, efc_aref, efc_force...); comparing two runs bitwise requires the not-yet-written bytes
+// to start out equal in both
+static mjData* fresh_data(const mjModel* m) { mjData* d = mj_makeData(m); if (d && d->arena) memset(d->arena, 0, d->narena); return d; }
 static int cb_mode = 0;
 static void control_cb(const mjModel* m, mjData* d) {
   // a deterministic controller that sets controls AND applied forces (both allowed for mjcb_control)
@@ -59,7 +63,7 @@ int main(void) {
       mjModel* m = mjg_model(seed, feat, nb, NULL);
       if (!m) { printf("ERR compile\n"); continue; }
       m->opt.integrator = integ; m->opt.enableflags |= en; m->opt.disableflags |= dis;
-      mjData* a = mj_makeData(m); mjData* b = mj_makeData(m);
+      mjData* a = fresh_data(m); mjData* b = fresh_data(m);
       mjg_rng r = {seed * 31 + 7}; mjg_random_state(m, a, &r, 1.0); mj_copyData(b, m, a);
       cb_mode = cbm; mjcb_control = cbm ? control_cb : NULL;
       char buf[512]; int nd = 0, kbad = -1;
@@ -86,14 +90,14 @@ int main(void) {
       mjModel* m = mjg_model(seed, feat, nb, NULL);
       if (!m) { printf("ERR compile\n"); continue; }
       m->opt.enableflags |= en;
-      mjData* a = mj_makeData(m); mjData* b = mj_makeData(m);
+      mjData* a = fresh_data(m); mjData* b = fresh_data(m);
       mjg_rng r = {seed * 31 + 7}; mjg_random_state(m, a, &r, 1.0);
       char buf[512];
       if (MJG_TRY) {
         for (int k = 0; k < 3; k++) mj_step(m, a);
         // perturb positions/velocities so that the stage has work to do
         for (int i = 0; i < m->nv; i++) a->qvel[i] += 0.01 * (i + 1);
-        mj_copyData(b, m, a);
+        mjData* base = a; a = fresh_data(m); mj_copyData(a, m, base); mj_copyData(b, m, base);
         user_update(m, a, seed, 99); f(m, a);        // U ; f
         f(m, b); user_update(m, b, seed, 99);        // f ; U
         MJG_END;
@@ -108,7 +112,7 @@ int main(void) {
       if (!m) { printf("ERR compile\n"); continue; }
       m->opt.integrator = integ; m->opt.enableflags |= en;
       m->opt.disableflags |= mjDSBL_WARMSTART;
-      mjData* a = mj_makeData(m); mjData* b = mj_makeData(m); mjData* c = mj_makeData(m);
+      mjData* a = fresh_data(m); mjData* b = fresh_data(m); mjData* c = fresh_data(m);
       mjg_rng r = {seed * 31 + 7}; mjg_random_state(m, a, &r, 1.0);
       char buf[512]; char buf2[512];
       if (MJG_TRY) {
